@@ -52,11 +52,20 @@ class Noise(Family):
                     if tier == "quick" and L >= 5 and mode in ("db-5", "db-array", "linear-array"):
                         continue
                     out.append({"L": L, "via": via, "mode": mode})
+        # typed input: an integer-typed signal (list of Python ints / int64 array) with a real-valued per-sample SNR
+        for via in ("process", "weaver"):
+            for sig in ("int-list", "int-array"):
+                out.append({"L": 4, "via": via, "mode": "linear-array", "signal": sig})
         return out
 
-    def run(self, ctx, inst, L, via, mode):
+    def run(self, ctx, inst, L, via, mode, signal=None):
         from traffic_weaver import process, Weaver
-        ys = ctx.reals("y", L)
+        if signal:
+            ctx.typed_inputs = True
+            ints = [1, -3, 2, 0, 4, 2][:L]          # mean of squares 7/2: exact in float64
+            ys = [ctx.const(v) for v in ints] if ctx.symbolic else [float(v) for v in ints]
+        else:
+            ys = ctx.reals("y", L)
         xs = ctx.reals("x", L)
         increasing(ctx, xs)
         kw = {}
@@ -89,14 +98,18 @@ class Noise(Family):
             # computation outside the symbolic domain), as a float in the replay
             snr = ctx.const(int(mode[3:])) if ctx.symbolic else float(int(mode[3:]))
         # signal must have power for the SNR definition to make sense
-        if mode != "std":
+        if mode != "std" and not signal:
             ctx.assume(ctx.Or(*[ctx.ne(v, 0) for v in ys]))
+        if signal:
+            y_arg = list(ints) if signal == "int-list" else np.array(ints)
+        else:
+            y_arg = arr(ctx, ys)
         with normal_calls(ctx, inst) as calls:
             if via == "process":
-                out = process.noise_gauss(arr(ctx, ys), snr=snr, **kw)
+                out = process.noise_gauss(y_arg, snr=snr, **kw)
                 rx = None
             else:
-                w = Weaver(arr(ctx, xs), arr(ctx, ys)).noise(snr, **kw)
+                w = Weaver(arr(ctx, xs), y_arg).noise(snr, **kw)
                 rx, out = w.get()
             cs = calls()
         ctx.claim("exactly-one-draw", len(cs) == 1, {"calls": len(cs)})
